@@ -323,10 +323,11 @@ theorem pairwise_dfs (hrot : RotClosed rels R)
         | panic => simp [btProblem, btChildren]
 
 
-/-- **irredundancy of `coset_tables`**: no two of the yielded tables (at different positions
-    of the output sequence) are isomorphic as sets with an action of the generators -/
-theorem cosetTables_irredundant (n : Nat) (rels : List (List Int)) (k fuel : Nat)
-    (hcr : ∀ ρ ∈ rels, ρ = [] ∨ FWP.CR ρ) (hlet : ∀ w ∈ rels, ∀ x ∈ w, x ∈ allGensOf n)
+/-- irredundancy, general form (`rels'`: any list of words all of whose rotations are among the
+    expanded relators) -/
+theorem cosetTables_irredundant_gen (n : Nat) (rels rels' : List (List Int)) (k fuel : Nat)
+    (hrot : RotClosed rels' (expandedRelatorSet rels)) (hlet' : ∀ w ∈ rels', ∀ x ∈ w, x ∈ allGensOf n)
+    (hlet : ∀ w ∈ rels, ∀ x ∈ w, x ∈ allGensOf n)
     (hf : (BT.dfs (btProblem n (expandedRelatorSet rels) k) (height k) (.ok (Table.new n))).length ≤ fuel) :
     (cosetTables n rels k fuel).Pairwise
       (fun x y => ∀ t1 t2, x = .ok t1 → y = .ok t2 → ¬ TIso n t1 t2) := by
@@ -334,12 +335,21 @@ theorem cosetTables_irredundant (n : Nat) (rels : List (List Int)) (k fuel : Nat
   rw [BT.run_eq_dfs _ (height k) (btProblem_decreasing n _ k) fuel hf]
   have hwR : ∀ u ∈ expandedRelatorSet rels, ∀ y ∈ u, y ∈ allGensOf n :=
     expandedRelatorSet_letters (S := fun y => y ∈ allGensOf n) (fun y hy => neg_mem_allGensOf hy) hlet
-  have hp := pairwise_dfs (maxRows := k) (rotClosed_expanded hcr) hlet hwR _ (.ok (Table.new n)) (Nat.le_refl _)
-    (fun t ht => by injection ht with ht; exact ht ▸ ⟨sinv_new k n rels, cs_new n⟩)
+  have hp := pairwise_dfs (maxRows := k) hrot hlet' hwR _ (.ok (Table.new n)) (Nat.le_refl _)
+    (fun t ht => by injection ht with ht; exact ht ▸ ⟨sinv_new k n rels', cs_new n⟩)
   refine List.Pairwise.filterMap _ ?_ hp
   intro a a' hno b hb b' hb' t1 t2 e1 e2
   subst e1; subst e2
   exact hno t1 t2 hb hb'
+
+/-- **irredundancy of `coset_tables`**: no two of the yielded tables (at different positions
+    of the output sequence) are isomorphic as sets with an action of the generators -/
+theorem cosetTables_irredundant (n : Nat) (rels : List (List Int)) (k fuel : Nat)
+    (hcr : ∀ ρ ∈ rels, ρ = [] ∨ FWP.CR ρ) (hlet : ∀ w ∈ rels, ∀ x ∈ w, x ∈ allGensOf n)
+    (hf : (BT.dfs (btProblem n (expandedRelatorSet rels) k) (height k) (.ok (Table.new n))).length ≤ fuel) :
+    (cosetTables n rels k fuel).Pairwise
+      (fun x y => ∀ t1 t2, x = .ok t1 → y = .ok t2 → ¬ TIso n t1 t2) :=
+  cosetTables_irredundant_gen n rels rels k fuel (rotClosed_expanded hcr) hlet hlet hf
 
 end
 
